@@ -170,5 +170,10 @@ Definition min_ttl (m : msg_ast) (age maxAge : Z) : Z := spec_min (m_an m ++ m_n
 
 (* boolean spec on one observed rewriting (C07 (b)): per record, the expiry seen
    by clients never moves later and the cap is respected *)
+(* boolean spec on the freshness value that decides whether the entry is served (C07 (c)): it is
+   positive only while every answer / authority TTL of the rewritten message is *)
+Definition min_serves_ok (minttl : Z) (anns_ttls : list Z) : bool :=
+  implb (0 <? minttl) (forallb (fun t => 0 <? t) anns_ttls).
+
 Definition ttl_ok (ttl ttl' age maxTTL : Z) : bool :=
   (ttl' + age <=? Z.max ttl age) && (implb (maxTTL >? 0) (ttl' <=? maxTTL)).
